@@ -570,7 +570,7 @@ func (c *lpCtx) chanClass(pkg string, file *ast.File, e ast.Expr) string {
 			if p := c.imports[file][id.Name]; p != "" {
 				return p + "." + x.Sel.Name
 			}
-			return id.Name + "." + x.Sel.Name
+			return "~" + id.Name + "." + x.Sel.Name // a type of a package that is not analysed
 		}
 	}
 	return exprString(e)
